@@ -31,7 +31,7 @@ ASSUMPTIONS = [
 ]
 TRUSTED = ["z3 5.1 (LIA)", "cvc5 / z3 (QF_BVFP lemma)", "vt.dtmodel", "vt.sym explorer"]
 BOUNDS = {"now": "unbounded Int us", "T": "unbounded Int us", "utcoffset": "(-24h, 24h) us", "host_offset": "whole minutes in [-14h, 14h]", "loops": "none in the code"}
-REQUIRED_COVERS = ["zero", "none", "delay", "naive", "aware", "model_boundary"]
+REQUIRED_COVERS = ["zero", "none", "delay", "naive", "aware", "earlier_evaluation", "model_boundary"]
 
 DAYUS = 86400 * US
 
@@ -63,10 +63,24 @@ def harness(c: sym.Ctx, case: Any) -> None:
     if case == "aware_offset":
         off = c.int("off", -DAYUS + 1, DAYUS - 1)
     c.cover("naive" if case == "naive" else "aware")
+    # an earlier evaluation in the same process (another schedule, an arbitrary earlier instant) must not influence this one
+    hist = c.flag("earlier_evaluation_in_the_same_process")
+    if hist:
+        c.cover("earlier_evaluation")
+        now0 = c.int("earlier_now")
+        T0 = c.int("earlier_T")
+        c.assume(now0 <= now)
     if c.mode == "sym":
-        dtmodel.CLOCK = dtmodel.Clock(now, local_off=local)
         run = _sched.sym_run_module()
-        t = DT(T, 0, False) if case == "naive" else DT(T, off, True, TZ("fixed", off))
+        mk = (lambda u: DT(u, 0, False)) if case == "naive" else (lambda u: DT(u, off, True, TZ("fixed", off)))
+        if hist:
+            dtmodel.CLOCK = dtmodel.Clock(now0, local_off=local)
+            try:
+                run.get_task_delay(types.SimpleNamespace(cron=None, cron_offset=None, time=mk(T0), task_name="t0", schedule_id="s0"))
+            except Exception:  # noqa: BLE001
+                pass
+        dtmodel.CLOCK = dtmodel.Clock(now, local_off=local)
+        t = mk(T)
         task = types.SimpleNamespace(cron=None, cron_offset=None, time=t, task_name="t", schedule_id="s")
         try:
             r = run.get_task_delay(task)
@@ -76,9 +90,16 @@ def harness(c: sym.Ctx, case: Any) -> None:
     else:
         from taskiq.scheduler.scheduled_task import ScheduledTask
 
+        if hist:
+            t0 = _sched.real_from_us(T0, None if case == "naive" else off)
+            with _sched.real_run_module(now0, local, fresh=True) as run0:
+                try:
+                    run0.get_task_delay(ScheduledTask(task_name="t0", labels={}, args=[], kwargs={}, time=t0))
+                except Exception:  # noqa: BLE001
+                    pass
         t = _sched.real_from_us(T, None if case == "naive" else off)
         task = ScheduledTask(task_name="t", labels={}, args=[], kwargs={}, time=t)
-        with _sched.real_run_module(now, local) as run:
+        with _sched.real_run_module(now, local, fresh=not hist) as run:
             try:
                 r = run.get_task_delay(task)
             except Exception as exc:  # noqa: BLE001
@@ -121,7 +142,7 @@ def boundary(c: sym.Ctx, case: Any) -> None:
     else:
         t = utc.astimezone(zoneinfo.ZoneInfo(c.choose(["America/New_York", "Asia/Kolkata"], "zone")))
     task = ScheduledTask(task_name="t", labels={}, args=[], kwargs={}, time=t)
-    with _sched.real_run_module(now, 0) as run:
+    with _sched.real_run_module(now, 0, fresh=True) as run:
         try:
             r = run.get_task_delay(task)
         except Exception as exc:  # noqa: BLE001
